@@ -274,16 +274,13 @@ fn c03_map_with() {
     kani::cover!(hi == Some(1) && len == 1);
 }
 
-/// `flat_map_with` / `flat_map_then_with` / `flat_map_then` / `then`: the right-hand side is
-/// not run for an upstream element before all outputs of the previous elements were delivered;
-/// an upstream error is passed through in place.
-#[kani::proof]
-#[kani::unwind(7)]
-fn c03_flat_map_then() {
-    let it = any_counting();
-    let (len, hi) = (it.len, it.hint_hi);
-    let err_at: u8 = kani::any(); // upstream element number err_at is an Err (0 = none)
-    kani::assume(err_at <= 3);
+/// `flat_map_then` (and through it `then`): the right-hand side is not run for an upstream
+/// element before all outputs of the previous elements were delivered; an upstream error is
+/// passed through in place.  The stream shape is *enumerated concretely* (every length <= 3,
+/// every error position, every honest size hint <= 4): `FlatMap` over boxed iterators with a
+/// symbolic length does not finish in CBMC, each concrete shape takes a fraction of a second.
+fn flat_map_then_case(len: u8, err_at: u8, hi: Option<usize>) {
+    let it = Counting { len, pulled: 0, hint_hi: hi };
     unsafe { CALLS = 0 };
     let up = it.map(move |y| if y == err_at { Err(y) } else { Ok(y) });
     // r(y) yields two outputs: (y, 0), (y, 1)
@@ -309,8 +306,38 @@ fn c03_flat_map_then() {
         k += 1;
     }
     assert!(out.next().is_none());
-    kani::cover!(len == 3 && err_at == 2);
-    kani::cover!(hi == Some(1) && len == 1 && err_at == 0);
+}
+fn flat_map_then_len(len: u8) {
+    let mut err_at = 0;
+    while err_at <= 3 {
+        flat_map_then_case(len, err_at, None);
+        let mut h = len as usize;
+        while h <= 4 {
+            flat_map_then_case(len, err_at, Some(h));
+            h += 1;
+        }
+        err_at += 1;
+    }
+}
+#[kani::proof]
+#[kani::unwind(8)]
+fn c03_flat_map_then_0() {
+    flat_map_then_len(0)
+}
+#[kani::proof]
+#[kani::unwind(8)]
+fn c03_flat_map_then_1() {
+    flat_map_then_len(1)
+}
+#[kani::proof]
+#[kani::unwind(8)]
+fn c03_flat_map_then_2() {
+    flat_map_then_len(2)
+}
+#[kani::proof]
+#[kani::unwind(8)]
+fn c03_flat_map_then_3() {
+    flat_map_then_len(3)
 }
 
 /// `then`: an `Err` is yielded as the single item and the continuation does not run
